@@ -1036,6 +1036,12 @@ func (p *Parser) parseNewline() ast.Node {
 }
 
 func (p *Parser) parsePostfix() ast.Statement {
+	// The operand is the token that came before, and it has to be the name
+	// of a variable
+	if p.prevToken.Type != token.IDENT {
+		p.setTokenError(p.curToken, "the %s operator must follow the name of a variable", p.curToken.Literal)
+		return nil
+	}
 	return ast.NewPostfix(p.prevToken, p.curToken.Literal)
 }
 
